@@ -75,6 +75,13 @@ func cmdRegoCheck(args []string) {
 		progs = regosym.FamilySkeletons(1)
 	case "skel2":
 		progs = regosym.FamilySkeletons(2)
+	case "nestedatoms":
+		progs = regosym.FamilyNestedAtoms(true)
+	case "atompaths":
+		progs = regosym.FamilyAtomPaths(true)
+	case "dbg1":
+		a := regosym.Atom{Path: regosym.P(1), Kind: "datatype", Type: "boolean"}
+		progs = []regosym.Program{{Name: "P", Validations: []regosym.Validation{{Name: "v", Level: "violation", Class: 0, F: regosym.Quant{Path: regosym.P(0), Least: false, N: 1, F: regosym.Not{F: regosym.And{Fs: []regosym.Formula{a}}}}}}}}
 	case "varidx":
 		progs = regosym.FamilyVariableIndex([]int{1, 2, 12, 22, 23, 24, 25, 26})
 	}
@@ -85,8 +92,31 @@ func cmdRegoCheck(args []string) {
 			progs = progs[:n]
 		}
 	}
+	if os.Getenv("VERIF_MISMATCH") != "" {
+		drv, _ := regosym.BuildDriver(repoDir, verifDir(), work)
+		sv, _ := smt.NewSolver("z3")
+		ck := &regosym.Checker{Drv: drv, Solver: sv}
+		for _, p := range progs {
+			gens, _ := drv.Generate([]string{p.ProfileYAML()})
+			fmt.Println(regosym.DescribeProgram(p))
+			fmt.Println(ck.FindModelMismatch(p, regosym.ScopeFor(p, 3, 2, 4), gens[0].Code, 600))
+		}
+		return
+	}
 	t0 := time.Now()
-	outs, err := runPrograms(work, progs, func(p regosym.Program) regosym.Scope { return regosym.ScopeFor(p, 2, 2, 4) }, nil, 16)
+	nn := 2
+	if os.Getenv("VERIF_N") == "3" {
+		nn = 3
+	}
+	kn := map[string]bool{}
+	if os.Getenv("VERIF_KNOWN") != "" {
+		for _, f := range loadFindings() {
+			if f.Status == "known" && f.Signature != "" {
+				kn[f.Signature] = true
+			}
+		}
+	}
+	outs, err := runPrograms(work, progs, func(p regosym.Program) regosym.Scope { return regosym.ScopeFor(p, nn, 2, 4) }, kn, 16)
 	if err != nil {
 		fmt.Fprintln(os.Stderr, err)
 		os.Exit(2)
@@ -98,6 +128,9 @@ func cmdRegoCheck(args []string) {
 			fmt.Printf("%-14s %s\n    %s\n", o.Status, o.Program, o.Detail)
 			if o.Status == "violation" || o.Status == "model-mismatch" {
 				fmt.Printf("    expected=%v predicted=%v actual=%v\n    model=%v\n", o.Expected, o.Predicted, o.Actual, o.Model)
+				if o.Status == "model-mismatch" {
+					fmt.Println(o.Data)
+				}
 			}
 		}
 	}
